@@ -1,5 +1,3 @@
-use hashbrown::HashMap;
-
 use emmylua_parser::LuaAstNode;
 
 use crate::{
@@ -8,7 +6,7 @@ use crate::{
     infer_expr, infer_param,
 };
 
-use super::UnResolve;
+use super::ReasonUnResolves;
 
 pub fn check_reach_reason(
     db: &DbIndex,
@@ -56,11 +54,11 @@ pub fn check_reach_reason(
 
 pub fn resolve_all_reason(
     db: &mut DbIndex,
-    reason_unresolves: &mut HashMap<InferFailReason, Vec<UnResolve>>,
+    reason_unresolves: &mut ReasonUnResolves,
     loop_count: usize,
 ) {
-    for (reason, _) in reason_unresolves.iter_mut() {
-        resolve_as_any(db, reason, loop_count);
+    for reason in reason_unresolves.reasons() {
+        resolve_as_any(db, &reason, loop_count);
     }
 }
 
